@@ -424,6 +424,49 @@ Proof.
     exists st0, e, rs, n. split; [exact H1|]. split; [exact H2|]. split; [exact H3 | exact H4].
 Qed.
 
+(* ------------------------------------------------------------------ cancelled / cycle-failed builds *)
+Lemma results_ok_filter : forall e (f : key * result -> bool) results,
+  results_ok e results = true -> results_ok e (filter f results) = true.
+Proof.
+  intros e f results H. unfold results_ok in *. rewrite forallb_forall in *. intros kr Hi.
+  apply filter_In in Hi. apply H. exact (proj1 Hi).
+Qed.
+
+(* whatever subset of the tasks completed before the cancellation, the trace is well-formed (so every theorem above
+   applies to it: atomic under a kill, invariant after the commit) *)
+Theorem cancelled_build_wf : forall st e results (finished : key * result -> bool),
+  e = iteration st + 1 -> results_ok e results = true ->
+  wf_trace st (trace_of_build e (filter finished results)) = true.
+Proof.
+  intros st e results finished He Hok. apply trace_of_build_wf; [exact He | apply results_ok_filter; exact Hok].
+Qed.
+
+Theorem cancelled_build_inv : forall st e results (finished : key * result -> bool) n,
+  DbInv st -> e = iteration st + 1 -> results_ok e results = true ->
+  DbInv (recover st (firstn n (trace_of_build e (filter finished results)))).
+Proof.
+  intros st e results finished n Hinv He Hok.
+  pose proof (cancelled_build_wf st e results finished He Hok) as Hwf.
+  rewrite (prefix_atomic st _ n Hwf). destruct (Nat.ltb n _).
+  - exact Hinv.
+  - apply committed_inv; assumption.
+Qed.
+
+(* without the iteration a failed build that stored anything breaks the invariant in a COMMITTED state: no kill needed *)
+Theorem failed_build_no_iteration_refuted :
+  exists st0 e completed,
+    DbInv st0 /\ e = iteration st0 + 1 /\ results_ok e completed = true /\
+    wf_trace st0 (trace_failed_no_iteration e completed) = false /\
+    ~ DbInv (recover st0 (trace_failed_no_iteration e completed)) /\
+    exists k r, lookup (rows (recover st0 (trace_failed_no_iteration e completed))) k = Some r /\
+                res_builtAt r = iteration (recover st0 (trace_failed_no_iteration e completed)) + 1.
+Proof.
+  exists empty_db, 1, [(0, mkRes (Some (1, 1)) 0 1 1 [])].
+  split; [exact empty_db_inv|]. split; [reflexivity|]. split; [reflexivity|]. split; [reflexivity|]. split.
+  - intros H. apply db_inv_b_iff in H. vm_compute in H. discriminate.
+  - exists 0, (mkRes (Some (1, 1)) 0 1 1 []). split; reflexivity.
+Qed.
+
 (* the same two results through the real trace shape: every cut is harmless *)
 Example cm_results_single_txn_ok : forall n,
   DbInv (recover empty_db (firstn n (trace_of_build 1 cm_results))).
@@ -474,3 +517,9 @@ Example ex_history_log : committed_log ex_history = ex_results.
 Proof. reflexivity. Qed.
 Example ex_no_reuse : forall k r, lookup (rows ex_st0) k = Some r -> res_builtAt r <> 4 /\ res_computedAt r <> 4.
 Proof. intros k r H. apply (no_epoch_reuse_hazard ex_st0 k r ex_st0_inv H). Qed.
+(* a cancelled build of epoch 4 in which only the first of the two tasks finished *)
+Example ex_cancelled_wf :
+  wf_trace ex_st0 (trace_of_build 4 (filter (fun kr => N.eqb (fst kr) 6) ex_results)) = true /\
+  db_inv_b (recover ex_st0 (trace_of_build 4 (filter (fun kr => N.eqb (fst kr) 6) ex_results))) = true /\
+  iteration (recover ex_st0 (trace_of_build 4 (filter (fun kr => N.eqb (fst kr) 6) ex_results))) = 4.
+Proof. split; [reflexivity|]. split; reflexivity. Qed.
